@@ -399,49 +399,30 @@ theorem clip_spec (u : Rect) (mc mr : Nat) (hu : if u.r1 = 0 then 1 ≤ u.c1 els
       simp only [contains_iff]
       omega
 
-/-- what the code computes (`address & AddressRange((1, 1, max_col, max_row))`, unbounded corners are 0) is the clip,
-    as long as the used area does not reach the last column / row of the sheet -/
+/-- what the code computes (`address & AddressRange((1, 1, max_col, max_row))`) is the clip, for every used area of the
+    sheet (`mr ≤ MAX_ROW` / `mc ≤ MAX_COL` hold for every sheet), the last row / column included -/
 theorem inter_used_cols (s : Str) (c1 c2 mc mr : Nat) (h1 : 1 ≤ c1) (h2 : c1 ≤ c2) (hmc : 1 ≤ mc) (hmr : 1 ≤ mr)
-    (hr : mr < MAX_ROW) :
+    (hr : mr ≤ MAX_ROW) :
     (⟨s, c1, 0, c2, 0⟩ : Rect).inter (usedRect s mc mr) =
       match clip ⟨s, c1, 0, c2, 0⟩ mc mr with
       | some R => .rect R
       | none => .null := by
-  have hR := maxRow_val
-  have hr' : (mr : Int) < 1048576 := by rw [← hR]; exact Int.ofNat_lt.mpr hr
-  unfold Rect.inter combineCore Rect.height Rect.width clip usedRect
-  have e1 : ¬ (c1 = 0 ∨ c2 = 0) := by omega
-  have e2 : ¬ ((1 : Nat) = 0 ∨ mc = 0) := by omega
-  have e3 : ¬ ((1 : Nat) = 0 ∨ mr = 0) := by omega
-  simp only [e1, e2, e3, true_or, ↓reduceIte, ne_eq, not_true_eq_false, and_false, ite_self, hR]
-  by_cases hc : c1 ≤ mc
-  · simp only [hc, hmr, and_self, ↓reduceIte]
-    rw [if_neg (by omega)]
-    congr 2 <;> omega
-  · simp only [hc, false_and, ↓reduceIte]
-    rw [if_pos (by omega)]
+  have := inter_unbounded_cols s c1 c2 mc mr h1 h2 hmc hmr hr
+  unfold usedRect clip
+  rw [this]
+  by_cases h : c1 ≤ mc <;> simp [h, hmr]
 
 theorem inter_used_rows (s : Str) (r1 r2 mc mr : Nat) (h1 : 1 ≤ r1) (h2 : r1 ≤ r2) (hmc : 1 ≤ mc) (hmr : 1 ≤ mr)
-    (hc : mc < MAX_COL) :
+    (hc : mc ≤ MAX_COL) :
     (⟨s, 0, r1, 0, r2⟩ : Rect).inter (usedRect s mc mr) =
       match clip ⟨s, 0, r1, 0, r2⟩ mc mr with
       | some R => .rect R
       | none => .null := by
-  have hC := maxCol_val
-  have hc' : (mc : Int) < 16384 := by rw [← hC]; exact Int.ofNat_lt.mpr hc
-  unfold Rect.inter combineCore Rect.height Rect.width clip usedRect
-  have e1 : ¬ (r1 = 0 ∨ r2 = 0) := by omega
-  have e2 : ¬ ((1 : Nat) = 0 ∨ mc = 0) := by omega
-  have e3 : ¬ ((1 : Nat) = 0 ∨ mr = 0) := by omega
-  have e4 : ¬ r1 = 0 := by omega
-  have e5 : ¬ r2 = 0 := by omega
-  simp only [e2, e3, e4, e5, or_self, ↓reduceIte, ne_eq, not_true_eq_false, and_false, ite_self, hC]
-  by_cases hrr : r1 ≤ mr
-  · simp only [hrr, hmc, and_self, ↓reduceIte]
-    rw [if_neg (by omega)]
-    congr 2 <;> omega
-  · simp only [hrr, false_and, ↓reduceIte]
-    rw [if_pos (by omega)]
+  have := inter_unbounded_rows s r1 r2 mc mr h1 h2 hmc hmr hc
+  have e : ¬ r1 = 0 := by omega
+  unfold usedRect clip
+  rw [this]
+  by_cases h : r1 ≤ mr <;> simp [h, hmc, e]
 
 /-! ### layouts: a range node is the row-major tuple of the nodes of its cells -/
 
